@@ -430,7 +430,10 @@ def run_pick(acc, P, job):
             exists = {f for f, e in zip(('policy.yaml', 'policy.json',
                                          'other.yaml'), ex) if e}
             for fallback in (True, False):
-                for explicit in (None, 'explicit.yaml', 'gone.yaml'):
+                # the constructor's own argument: none, a file that exists,
+                # one that does not, and the very name the option holds
+                for explicit in (None, 'explicit.yaml', 'gone.yaml',
+                                 'policy.yaml', 'other.yaml'):
                     w = world.FileWorld()
                     try:
                         for f in sorted(exists | {'explicit.yaml'}):
